@@ -1,9 +1,15 @@
 FNS = ['read', 'readv', 'recv', 'recvfrom', 'recvmsg', 'write', 'writev', 'send', 'sendto', 'sendmsg', 'close', 'fcntl', 'ioctl', 'should_block', 'accept', 'connect', 'setup_socket']
-WEAVE = [dict(file='src/fiber_io.c', fns=FNS, loops='loops.json')]
+WEAVE = [dict(file='src/fiber_io.c', fns=FNS, loops='loops.json'),
+         dict(file='src/fiber_event_native.c', fns=['fiber_wait_for_event', 'fiber_fd_closed', 'fiber_event_wake_waiters', 'fiber_poll_events_internal'])]
 def H(name, fn=None):
     return dict(name=name, tu='io.c', harness='h_' + name, mode='H', loop_contracts=True, functions=[fn or name], timeout=300)
 GROUPS = [H(n) for n in ['read', 'readv', 'recv', 'recvfrom', 'recvmsg', 'write', 'writev', 'send', 'sendto', 'sendmsg', 'close', 'accept', 'connect']] + [
-    H('fcntl_setfl_nonblock', 'fcntl'), H('fcntl_other', 'fcntl'), H('ioctl_fionbio', 'ioctl')]
+    H('fcntl_setfl_nonblock', 'fcntl'), H('fcntl_other', 'fcntl'), H('ioctl_fionbio', 'ioctl'),
+    dict(name='ev_wait_for_event', tu='event.c', harness='h_wait_for_event', mode='H', functions=['fiber_wait_for_event'], timeout=300),
+    dict(name='ev_poll_fd_event', tu='event.c', harness='h_poll_fd_event', mode='H', functions=['fiber_poll_events_internal', 'fiber_event_wake_waiters'], unwind=4, bounded=True,
+         bound='one descriptor event per poll, <= 2 fibers parked on the descriptor'),
+    dict(name='ev_fd_closed', tu='event.c', harness='h_fd_closed', mode='H', functions=['fiber_fd_closed', 'fiber_event_wake_waiters'], unwind=4, bounded=True,
+         bound='<= 2 fibers parked on the descriptor; all int descriptors')]
 ASSUMPTIONS = ['the kernel behind the fibershim_* pointers may return anything POSIX allows; a descriptor outside [0, max_fd) fails with EBADF',
-               'fiber_wait_for_event / fiber_fd_closed by contract (C01/C09 own the event layer); the blocking mode of the observed descriptor is not changed by another fiber during the call',
+               'fiber_wait_for_event / fiber_fd_closed by contract in the shim proofs; their real bodies are proved against an abstract epoll in event.c (waiter-list walks bounded: <= 2 parked fibers); the blocking mode of the observed descriptor is not changed by another fiber during the call',
                'kernel readiness delivery (epoll) is not modelled: "a blocked fiber is always resumed" is decided only as far as the wait/wake contracts go']
